@@ -283,6 +283,67 @@ func runC02(c *runCtx) {
 			}
 		}
 	}
+	// the token limit counts the tokens of the whole input, whatever they are and however they are grouped into statements
+	shapes := []struct {
+		name string
+		mk   func(n int) []byte
+	}{
+		{"statements-of-two", func(n int) []byte {
+			s := strings.Repeat("1;", n/2)
+			if n%2 == 1 {
+				s += "1"
+			}
+			return []byte(s)
+		}},
+		{"statements-of-1000", func(n int) []byte {
+			var b strings.Builder
+			for i := 0; i < n; i++ {
+				if i%1000 == 999 {
+					b.WriteString(";")
+				} else {
+					b.WriteString("1 ")
+				}
+			}
+			return []byte(b.String())
+		}},
+		{"five-statements", func(n int) []byte {
+			var b strings.Builder
+			per := n / 5
+			for i := 0; i < n; i++ {
+				if i%per == per-1 && i < n-1 {
+					b.WriteString(";")
+				} else {
+					b.WriteString("a ")
+				}
+			}
+			return []byte(b.String())
+		}},
+		{"mixed-kinds", func(n int) []byte {
+			kinds := []string{"a", ",", "'x'", "(", ")", ";", "1.5", "<=", "\"q\"", "$1", "`b`", "||"}
+			var b strings.Builder
+			for i := 0; i < n; i++ {
+				b.WriteString(kinds[i%len(kinds)])
+				b.WriteString(" ")
+			}
+			return []byte(b.String())
+		}},
+	}
+	for _, sh := range shapes {
+		for _, ep := range []string{"tokenize", "tokenizectx"} {
+			for _, d := range []int{0, 1, 777} {
+				ans := pool.Run(ep, sh.mk(maxTok+d), 300*time.Second)
+				res.count(fmt.Sprintf("tokens|%s|%s|%d", sh.name, ep, d), true)
+				want := "ok"
+				if d > 0 {
+					want = "E1007"
+				}
+				if ans != want {
+					res.fail(fmt.Sprintf("token-limit:%s:%s", ep, sh.name), fmt.Sprintf("%s of %d tokens (limit%+d, %s) answered %s, want %s", ep, maxTok+d, d, sh.name, ans, want),
+						map[string]any{"entry": ep, "tokens": maxTok + d, "shape": sh.name}, nil)
+				}
+			}
+		}
+	}
 	// dynamic validation of the extracted call graph: stacks seen inside ctx.Err() must be paths of it
 	validateCallGraph(c)
 }
